@@ -1,7 +1,8 @@
 ------------------------------ MODULE MC_Pairs ------------------------------
 EXTENDS Pairs, TLC, Json
-PolyShapes == {Square, Kite, Kite2}
-DiscShapes == {Circle, Trimer(U \div 2, U + U \div 2), Trimer(U, 2 * U), Trimer(U \div 5, 3 * U)}
+PolyShapes == {Square, Kite, Kite2, Quad}
+DiscShapes == {Circle, Trimer(U \div 2, U + U \div 2), Trimer(U, 2 * U), Trimer(U \div 5, 3 * U),
+               Trimer((7 * U) \div 5, U)}   \* outer discs larger than the central one
 Emit == PrintT(<<"EMIT", ToJson([
           shape |-> sh.name, sr |-> IF sh.kind = "discs" THEN sh.r ELSE 0,
           sd |-> IF sh.kind = "discs" THEN sh.d ELSE 0, U |-> U, G |-> G,
